@@ -651,6 +651,14 @@ def _r1(ctx, pkg):
         if not ok and st and unread:
             ctx.unrec("R1", f"{cls}._parse_string:blank-guard", (file, fn.lineno), "the record is tested in a way this rule cannot read: " + "; ".join(unread)[:160])
             continue
+        if not st:
+            # no plain store of a decoded attribute in sight (decoding moved behind a dispatch table / setattr): nothing to judge
+            ctx.unrec("R1", f"{cls}._parse_string:blank-guard", (file, fn.lineno), "cannot find where the parser stores the decoded attributes (alpha / reactants / idxfromfile / rate_string)")
+            continue
+        if not ok and any(f.loops for f in st if not any(_blank_guard(simp(g), p) for g, p in f.guards)):
+            # an unguarded store inside a loop over pieces of the record: a blank record may simply have no pieces
+            ctx.unrec("R1", f"{cls}._parse_string:blank-guard", (file, fn.lineno), "attributes are stored inside a loop over pieces of the record without a blank test this rule can read")
+            continue
         ctx.check(ok, "R1", f"{cls}._parse_string:blank-guard", (file, fn.lineno), "nothing is parsed from a blank / None record",
                   found="; ".join(sorted({show(simp(g))[:50] for f in st for g, _ in f.guards}))[:160])
     ctx.floor("R1", "parsers", n, 6)
@@ -713,6 +721,7 @@ def _r2(ctx, pkg):
         return d[1] if d[0] == "meth" and d[2] == "keys" and not d[3] else d
     WANT = {("star", ("attr", SELF, "reactant2type")), ("const", "NAN")}
     lists = []
+    undecided = 0
     for attr in ("reactants", "products"):
         st = [f for f in fl.facts if f.kind == "attrstore" and f.target == attr]
         good = False
@@ -728,19 +737,34 @@ def _r2(ctx, pkg):
                     # filtered, but not by `tok not in <list>`: which tokens are removed is not read here
                     ctx.unrec("R2", f"UCLCHEM:{attr}:keyword filter", ("naunet/reactions/uclchemreaction.py", st[-1].line), "the tokens are filtered by a test this rule cannot read: "
                               + "; ".join(show(c)[:60] for c in others)[:160])
+                    undecided += 1
                     continue
             elif st:
                 ctx.unrec("R2", f"UCLCHEM:{attr}:keyword filter", ("naunet/reactions/uclchemreaction.py", st[-1].line), "the list is not built by a comprehension this rule can read")
+                undecided += 1
                 continue
-        ctx.check(good, "R2", f"UCLCHEM:{attr}:keyword filter", ("naunet/reactions/uclchemreaction.py", st[-1].line if st else fn.lineno),
+        if not st:
+            ctx.unrec("R2", f"UCLCHEM:{attr}:keyword filter", ("naunet/reactions/uclchemreaction.py", fn.lineno), f"no plain store into self.{attr} in the UCLCHEM parser")
+            undecided += 1
+            continue
+        if not good:
+            # positive evidence of a missing filter: the tokens are seen to come straight from the fields of the split record; a
+            # sequence produced by anything else (filter / filterfalse / a helper) may well have been filtered there
+            if _Record(LAYOUT["UCLCHEMReaction"]["n"]).run(m[2]) is None:
+                ctx.unrec("R2", f"UCLCHEM:{attr}:keyword filter", ("naunet/reactions/uclchemreaction.py", st[-1].line),
+                          "cannot see where the tokens the species are created from come from (expected the fields of the split record, filtered by `tok not in <keywords>`): " + show(simp(m[2]))[:100])
+                undecided += 1
+                continue
+        ctx.check(good, "R2", f"UCLCHEM:{attr}:keyword filter", ("naunet/reactions/uclchemreaction.py", st[-1].line),
                   f"tokens of the keyword list are removed before the {attr} are created")
     got = [members(k) for k in lists]
     if lists and any(g is None for g in got):
         ctx.unrec("R2", "UCLCHEM:kwlist", ("naunet/reactions/uclchemreaction.py", fn.lineno), "the keyword list is not a literal / concatenation this rule can read: " + "; ".join(show(simp(k))[:80] for k in lists))
-    else:
-        ok = len(lists) == 2 and all(set(g) == WANT for g in got)
+    elif lists:
+        # (a side without a readable filter was answered above)
+        ok = all(set(g) == WANT for g in got)
         ctx.check(ok, "R2", "UCLCHEM:kwlist", ("naunet/reactions/uclchemreaction.py", fn.lineno), "the keyword list is every key of reactant2type plus the filler NAN",
-                  found="; ".join(show(simp(k))[:100] for k in lists) or "missing")
+                  found="; ".join(show(simp(k))[:100] for k in lists))
     # KROME: reactants/products appended only when _create_species(value) is truthy
     kfn = _parser(pkg, "KROMEReaction")
     kfl = Flow(kfn, "naunet/reactions/kromereaction.py")
